@@ -4,6 +4,7 @@ import (
 	"fmt"
 	"os"
 	"sort"
+	"sync/atomic"
 	"time"
 
 	"github.com/btcsuite/btcd/blockchain"
@@ -37,13 +38,61 @@ type Env struct {
 	Chain *blockchain.BlockChain
 	Pool  *btcmempool.TxPool
 	SM    *netsync.SyncManager
-	TS    blockchain.MedianTimeSource
+	TS    *Clock
 	Sig   *txscript.SigCache
 	Hash  *txscript.HashCache
 	// slot -> block built in this environment
 	Blocks map[int]*btcutil.Block
 	// every block handed to the chain, in order (for clones)
 	Fed []*btcutil.Block
+}
+
+// Clock is the node's adjusted time: the wall clock, or a fixed instant set by
+// the template checks (the minimum-difficulty rule depends on it).
+type Clock struct {
+	fixed atomic.Int64 // unix seconds, 0 = wall clock
+}
+
+func (c *Clock) AdjustedTime() time.Time {
+	if f := c.fixed.Load(); f != 0 {
+		return time.Unix(f, 0)
+	}
+	return time.Unix(time.Now().Unix(), 0)
+}
+func (c *Clock) AddTimeSample(string, time.Time) {}
+func (c *Clock) Offset() time.Duration           { return 0 }
+
+// Set fixes the clock (zero time: back to the wall clock).
+func (c *Clock) Set(t time.Time) {
+	if t.IsZero() {
+		c.fixed.Store(0)
+	} else {
+		c.fixed.Store(t.Unix())
+	}
+}
+
+// newChainOnly creates a node without base chain, pool and sync manager (used
+// while the base chain itself is being built).
+func newChainOnly(c *Concrete) (*Env, error) {
+	dir, err := os.MkdirTemp(scratchRoot(), "verif-mp-")
+	if err != nil {
+		return nil, err
+	}
+	params := NewParams(c.U)
+	db, err := database.Create("ffldb", dir, params.Net)
+	if err != nil {
+		os.RemoveAll(dir)
+		return nil, err
+	}
+	e := &Env{C: c, dir: dir, db: db, TS: &Clock{}, Blocks: map[int]*btcutil.Block{}}
+	e.Sig = txscript.NewSigCache(100)
+	e.Hash = txscript.NewHashCache(100)
+	e.Chain, err = blockchain.New(&blockchain.Config{DB: db, ChainParams: params, TimeSource: e.TS, SigCache: e.Sig, HashCache: e.Hash, UtxoCacheMaxSize: 1 << 20})
+	if err != nil {
+		e.Close()
+		return nil, err
+	}
+	return e, nil
 }
 
 func scratchRoot() string {
@@ -59,13 +108,13 @@ func NewEnv(c *Concrete, withPool bool) (*Env, error) {
 	if err != nil {
 		return nil, err
 	}
-	params := NewParams(c.U.Maturity)
+	params := NewParams(c.U)
 	db, err := database.Create("ffldb", dir, params.Net)
 	if err != nil {
 		os.RemoveAll(dir)
 		return nil, err
 	}
-	e := &Env{C: c, dir: dir, db: db, TS: blockchain.NewMedianTime(), Blocks: map[int]*btcutil.Block{}}
+	e := &Env{C: c, dir: dir, db: db, TS: &Clock{}, Blocks: map[int]*btcutil.Block{}}
 	e.Sig = txscript.NewSigCache(100)
 	e.Hash = txscript.NewHashCache(100)
 	e.Chain, err = blockchain.New(&blockchain.Config{DB: db, ChainParams: params, TimeSource: e.TS, SigCache: e.Sig, HashCache: e.Hash, UtxoCacheMaxSize: 1 << 20})
@@ -85,7 +134,7 @@ func NewEnv(c *Concrete, withPool bool) (*Env, error) {
 	u := c.U
 	e.Pool = btcmempool.New(&btcmempool.Config{
 		Policy: btcmempool.Policy{
-			MaxTxVersion: 2, AcceptNonStd: true, DisableRelayPriority: true,
+			MaxTxVersion: 2, AcceptNonStd: !u.Standard, DisableRelayPriority: true,
 			MaxOrphanTxs: u.MaxOrphans, MaxOrphanTxSize: u.MaxOrphanSize,
 			MaxSigOpCostPerTx: blockchain.MaxBlockSigOpsCost / 2,
 			MinRelayTxFee:     btcutil.Amount(u.MinRelayFee),
@@ -169,7 +218,16 @@ func (e *Env) BuildSlot(b int, body []int) (*btcutil.Block, error) {
 	if p := e.C.U.SlotParent[b-1]; p != 0 && e.Blocks[p] == nil {
 		return nil, fmt.Errorf("slot %d: parent slot %d not built", b, p)
 	}
-	blk := e.C.SlotBlock(b, e.parentHash(b), body)
+	bits := e.C.Params.PowLimitBits
+	if e.C.U.Retarget {
+		// no forks here: the slot extends the tip, one second after it
+		var err error
+		h := e.C.SlotHeight(b)
+		if bits, err = e.Chain.CalcNextRequiredDifficulty(e.C.T0.Add(time.Duration(h) * time.Second)); err != nil {
+			return nil, err
+		}
+	}
+	blk := e.C.SlotBlock(b, e.parentHash(b), bits, body)
 	e.Blocks[b] = blk
 	return blk, nil
 }
